@@ -12,7 +12,7 @@ def sm_masks(tier, seed):
     import random
     base = [0b000000000, 0b111111111, 0b100010001, 0b010101010, 0b001100110, 0b110001100]
     rng = random.Random(seed)
-    n = 6 if tier == 'quick' else 64
+    n = 4 if tier == 'quick' else 64
     masks = list(base)
     while len(masks) < n:
         m = rng.randrange(512)
@@ -24,7 +24,7 @@ def sm_masks(tier, seed):
 class Harness:
     """one sm mask; bias / walk / noise are symbolic and fork"""
 
-    def __init__(self, mask, mutate=None, light=False):
+    def __init__(self, mask, mutate=None, light=False, reduced=False):
         import z3
         from .. import symreal as S, enga
         self.S = S
@@ -35,9 +35,10 @@ class Harness:
         if mutate:
             mutate(self.m)
         self.IS = self.m['IS']
-        self.bias = S.O([S.var('bsd%d' % i) for i in range(3)])
-        self.walk = S.O([S.var('wlk%d' % i) for i in range(3)])
-        self.noise = S.O([S.var('nse%d' % i) for i in range(3)])
+        sv = lambda nm, i: S.var('%s%d' % (nm, i)) if (not reduced or i >= 1) else S.J(0)
+        self.bias = S.O([sv('bsd', i) for i in range(3)])
+        self.walk = S.O([sv('wlk', i) for i in range(3)])
+        self.noise = S.O([sv('nse', i) for i in range(3)])
         self.sm = S.symnp.zeros((3, 3))
         pre = []
         for k in range(9):
@@ -61,6 +62,11 @@ class Harness:
         IS = self.IS
         ex = paths.CUR
         out = {'obls': [], 'raised': None}
+        # the enable bits are decided up front (one path per sign pattern), so that a constructor
+        # that fails to look at some entry is still run on every pattern
+        for arr in (self.bias, self.walk, self.noise):
+            for v in arr:
+                bool(v > 0)
         try:
             model = IS.EstimationModel(bias_sd=self.bias, noise=self.noise, bias_walk=self.walk, scale_misal_sd=self.sm)
         except ValueError as e:
@@ -310,9 +316,59 @@ CANARIES = [
 ]
 
 
-def _explore(mask, mutate=None, light=False):
+def _mask_job(args):
+    """explore one scale-misalignment mask and discharge its obligations inside a pool worker;
+    returns plain data"""
+    import z3
+    from .. import enga, common
+    from .. import symreal as S
+    mask, light, tier, seed = args
+    run = common.Run(PROP, LEVEL, tier, seed)
+    rep = enga.AReport(run, box={'dt1': (0.01, 1), 'dt2': (0.01, 1)})
+    h, outs, ex = _explore(mask, light=light)
+    res = {'mask': mask, 'paths': 0, 'layouts': [], 'errors': [], 'families': {}, 'unknown': [], 'cands': [], 'triv': 0, 'samples': []}
+    obls = []
+    for o in outs:
+        if o.get('infeasible'):
+            continue
+        if o.get('error'):
+            res['errors'].append('mask %03x: %s' % (mask, o['error']))
+            continue
+        res['paths'] += 1
+        res['layouts'].append(o['mask'])
+        obls += o['obls']
+    hard = []
+    for ob in obls:
+        if z3.is_false(z3.simplify(ob.neg)):
+            f = res['families'].setdefault(ob.family, [0, 0, 0.0])
+            f[0] += 1
+            f[1] += 1
+            res['triv'] += 1
+        else:
+            hard.append(ob)
+    out = enga.discharge(hard, timeout_s=30 if tier == 'quick' else 120, pool=1, ctx=S.C)
+    for ob, r in zip(hard, out):
+        f = res['families'].setdefault(ob.family, [0, 0, 0.0])
+        f[0] += 1
+        f[2] += r['secs']
+        if r['result'] == 'unsat':
+            f[1] += 1
+            if len(res['samples']) < 2:
+                res['samples'].append({'obligation': ob.name, 'family': ob.family, 'result': 'unsat', 'solver_s': round(r['secs'], 3)})
+            continue
+        tr = rep.refute(ob, r, S.C)
+        if tr is None and ob.expr is None and r['result'] == 'sat':
+            tr = ({}, float('nan'))
+        if tr is None:
+            res['unknown'].append('%s (%s)' % (ob.name, r['result']))
+        else:
+            res['cands'].append({'name': ob.name, 'meta': ob.meta, 'point': tr[0], 'value': tr[1]})
+    return res
+
+
+def _explore(mask, mutate=None, light=False, reduced=False):
     from .. import paths
-    h = Harness(mask, mutate, light)
+    h = Harness(mask, mutate, light, reduced)
     ex = paths.Exec(h.pre)
     res, _ = ex.run(h.fn, on_path=h.on_path)
     return h, [r.extra for r in res], ex
@@ -325,41 +381,48 @@ def run(run):
     from .c05 import _mut_method
     box = {}
     rep = enga.AReport(run, box={'dt1': (0.01, 1), 'dt2': (0.01, 1)})
-    run.assume('exact real arithmetic; enable bits = signs of symbolic standard deviations (bias / walk / noise fork on every path; scale-misalignment masks are enumerated: %s)' % ('6 covering masks' if run.tier == 'quick' else '64 masks'),
+    run.assume('exact real arithmetic; enable bits = signs of symbolic standard deviations (bias / walk / noise fork on every path; scale-misalignment masks are enumerated: %s)' % ('4 masks, two of them with the full obligation set' if run.tier == 'quick' else '64 masks'),
                'np.linalg.solve is the explicit 3x3 adjugate/det solve, det(transform) != 0 assumed; rational identities decided after multiplying out the reciprocal',
                'RNG replaced by symbolic draws (coefficients of noise terms are read off); sample statistics of the generator are outside',
                'state-name comparison against Parameters.apply uses concrete non-nominal values on the enabled entries')
     masks = sm_masks(run.tier, run.seed)
     n_paths = 0
     layouts = set()
-    for k, mask in enumerate(masks):
-        light = run.tier == 'quick' and k >= 3
-        h, outs, ex = _explore(mask, light=light)
-        obls = []
-        for o in outs:
-            if o.get('infeasible'):
-                continue
-            if o.get('error'):
-                run.error('mask %03x: %s' % (mask, o['error']))
-                continue
-            n_paths += 1
-            layouts.add(o['mask'])
-            obls += o['obls']
-        # trivial ones are decided here, the rest go to the pool
-        hard = []
-        triv = {}
-        for ob in obls:
-            se = z3.simplify(ob.neg)
-            if z3.is_false(se):
-                t = triv.setdefault(ob.family, [0])
-                t[0] += 1
+    import multiprocessing as mp
+    jobs = [(mask, run.tier == 'quick' and k >= 2, run.tier, run.seed) for k, mask in enumerate(masks)]
+    with mp.get_context('fork').Pool(min(16, len(jobs))) as pool:
+        results = pool.map(_mask_job, jobs, chunksize=1)
+    specs = []
+    for res in results:
+        for e in res['errors']:
+            run.error(e)
+        n_paths += res['paths']
+        layouts.update(tuple(map(tuple, l[:3])) + (l[3],) for l in res['layouts'])
+        for fam, (n, ok, secs) in res['families'].items():
+            run.family(fam, n, ok, secs)
+        run.cov['syntactically_discharged'] = run.cov.get('syntactically_discharged', 0) + res['triv']
+        run.unknown += res['unknown']
+        for smp in res['samples']:
+            run.sample(smp)
+        for c in res['cands'][:3]:
+            specs.append(({'property': PROP, 'kind': 'numeric', 'check': (c['meta'] or {}).get('check'), 'point': c['point'],
+                           'obligation': c['name'], 'params': (c['meta'] or {}).get('params')}, c))
+    if specs:
+        rr = common.run_replays([s_ for s_, _c in specs])
+        seen = set()
+        for (spec, c), r in zip(specs, rr):
+            if r.get('error'):
+                run.error('replay error for "%s": %s' % (c['name'], r['error']))
+            elif r.get('violated'):
+                key = str(r.get('detail'))
+                if key in seen:
+                    continue
+                seen.add(key)
+                spec = dict(spec)
+                spec['observed'] = r.get('detail')
+                run.violation('%s; real code: %s' % (c['name'], r.get('detail')), common.write_replay(PROP, spec))
             else:
-                hard.append(ob)
-        for fam, (cnt,) in triv.items():
-            run.family(fam, cnt, cnt, 0.0)
-        run.cov['syntactically_discharged'] = run.cov.get('syntactically_discharged', 0) + sum(v[0] for v in triv.values())
-        bad = rep.batch(hard, timeout_s=30 if run.tier == 'quick' else 120, ctx=S.C)
-        rep.finish(bad, PROP, ctx=S.C)
+                run.error('obligation "%s" fails symbolically but the compiled code satisfies the numeric oracle - inconclusive' % c['name'])
     run.cov['mask_paths'] = n_paths
     run.cov['distinct_masks'] = len(layouts)
     run.witness('both admissible and raising masks were reached', n_paths > 100)
@@ -371,7 +434,7 @@ def run(run):
             if can[1] == 'noise':
                 obls = section_noise(rep, _mut_method(can[2]))
             else:
-                h, outs, ex = _explore(can[2], _mut_method(can[1]))
+                h, outs, ex = _explore(can[2], _mut_method(can[1]), reduced=True)
                 obls = [ob for o in outs if not o.get('infeasible') and not o.get('error') for ob in o['obls']]
                 errs = [o['error'] for o in outs if o.get('error')]
                 if errs and not obls:
